@@ -236,27 +236,7 @@ func C07(p *ir.Program, r *report.R) {
 		c.ErrorDiscipline("utxo.(*UtxoStore).SaveKImages", sk, "db.Batch.*")
 		su2 := p.Func("utxo", "UtxoStore.SaveUtxo")
 		c.ErrorDiscipline("utxo.(*UtxoStore).SaveUtxo", su2, "utxo.UtxoStore.SaveKImages")
-		// the images are stored whatever else the block contains (a block of pure withdrawals has
-		// key images and no confidential outputs): no return before SaveKImages(kImgs)
-		{
-			ski := ir.Calls(su2, "utxo.UtxoStore.SaveKImages")
-			okArg := len(ski) == 1 && Arg(ski[0], 1) == "kImgs"
-			r.Check("K2", "utxo.(*UtxoStore).SaveUtxo/SaveKImages/argument", p.Pos(su2.Pos()), okArg, "SaveKImages receives the block's image slice unchanged")
-			found, hit, tr := ir.FindPath(ir.PathQuery{From: ir.Entry(su2), Target: ir.IsReturn, Avoid: ir.CallMatcher("utxo.UtxoStore.SaveKImages"),
-				AvoidEdge: func(atoms []string) bool {
-					for _, a := range atoms {
-						if a == "eq(len(kImgs),0)" || a == "le(len(kImgs),0)" {
-							return true
-						}
-					}
-					return false
-				}})
-			d := "every path to a return passes SaveKImages (skipped only for an empty image slice)"
-			if found {
-				d += fmt.Sprintf(" — but %s is reached without it, blocks %v", p.InstrPos(hit), tr)
-			}
-			r.Check("K2", "utxo.(*UtxoStore).SaveUtxo/SaveKImages/on-every-path", p.Pos(su2.Pos()), !found, d)
-		}
+		saveUtxoStoresImages(c)
 		// the mempool's key-image set is rebuilt from the pending transactions after every commit
 		mempoolRecheckRules(c)
 		// membership structures for key images are keyed by the image VALUE (a pointer key would
@@ -431,3 +411,29 @@ func C07(p *ir.Program, r *report.R) {
 }
 
 var _ = report.Discharged
+
+// saveUtxoStoresImages (shared by C06 and C07): the key images of a block are stored whatever else
+// the block contains (a block of pure withdrawals has key images and no confidential outputs): no
+// return of SaveUtxo before SaveKImages(kImgs). An image that is not stored can be spent again (C07),
+// which pays the same hidden value out twice (C06).
+func saveUtxoStoresImages(c C) {
+	p, r := c.P, c.R
+	su2 := p.Func("utxo", "UtxoStore.SaveUtxo")
+	ski := ir.Calls(su2, "utxo.UtxoStore.SaveKImages")
+	okArg := len(ski) == 1 && Arg(ski[0], 1) == "kImgs"
+	r.Check("K2", "utxo.(*UtxoStore).SaveUtxo/SaveKImages/argument", p.Pos(su2.Pos()), okArg, "SaveKImages receives the block's image slice unchanged")
+	found, hit, tr := ir.FindPath(ir.PathQuery{From: ir.Entry(su2), Target: ir.IsReturn, Avoid: ir.CallMatcher("utxo.UtxoStore.SaveKImages"),
+		AvoidEdge: func(atoms []string) bool {
+			for _, a := range atoms {
+				if a == "eq(len(kImgs),0)" || a == "le(len(kImgs),0)" {
+					return true
+				}
+			}
+			return false
+		}})
+	d := "every path to a return passes SaveKImages (skipped only for an empty image slice)"
+	if found {
+		d += fmt.Sprintf(" — but %s is reached without it, blocks %v", p.InstrPos(hit), tr)
+	}
+	r.Check("K2", "utxo.(*UtxoStore).SaveUtxo/SaveKImages/on-every-path", p.Pos(su2.Pos()), !found, d)
+}
